@@ -5,7 +5,7 @@ from common import case
 from c03 import CURVES, ref_mul, ref_add, N, P, GX, GY
 
 ID = "C01"
-MAKE_TARGETS = ["Props/C01.v", "Props/SmallCurvesAll.v", "GenProps/CurveGen.v", "GenProps/Bip143Gen.v"]
+MAKE_TARGETS = ["Props/C01.v", "Props/SmallCurvesAll.v", "Props/Secp256k1.v", "GenProps/CurveGen.v", "GenProps/Bip143Gen.v"]
 GEN_TABLES = ["CurveGen", "Bip143Gen"]
 CASE_TIMEOUT = 60.0
 FILLER = {"secp-sign-rand"}
